@@ -181,9 +181,17 @@ def pair_job_cli(arg):
     return {"pair": (k1, k2), "files": files, "batch": lite(b, 0), "chain": [lite(c1, 0), lite(c2, 0)]}
 
 
+def _rerun_project(k):
+    files = project_for(k, k)
+    # the same sites in places the default excludes keep out of a run: a second run must not start to see them
+    files["conftest.py"] = COLLISION
+    files["venv/lib/site-packages/vendored.py"] = COLLISION
+    return files
+
+
 def rerun_job(k):
     """P -K-> s1 -K-> s2 on the collision project (manifests included): the project-level fixed point of C07."""
-    files = project_for(k, k)
+    files = _rerun_project(k)
     o = drive.run_inproc(drive.Job(files=files, argv=["{dir}", "--codemod-include", k], runs=2))
     if o.error:
         raise core.HarnessError(o.error)
@@ -191,7 +199,7 @@ def rerun_job(k):
 
 
 def rerun_job_cli(k):
-    files = project_for(k, k)
+    files = _rerun_project(k)
     o = drive.run_cli(drive.Job(files=files, argv=["{dir}", "--codemod-include", k], runs=2))
     if o.error:
         raise core.HarnessError(o.error)
